@@ -351,13 +351,18 @@ PROPS['C16'] = dict(
           'progress has strictly decreased the work of the session - so between two enqueues and within one connection the engine '
           'performs at most `work` steps, writes nothing for ever and nothing twice; poll()/recv() never return idle (only a message, '
           '"advanced", an error or a dropped future); an entry already sent on this connection is never picked again; a completed '
-          'entry is flushed next; a flushed acknowledgement or PINGREQ leaves its queue. Quiescence itself is checked: every generated '
+          'entry is flushed next; a flushed acknowledgement or PINGREQ leaves its queue. The loops themselves: on EVERY transport '
+          '(any script of partial writes, faults, dropped futures) the engine loop of drive() and the flush loop inside publish / '
+          'subscribe / unsubscribe end without exhausting their fuel once the fuel exceeds work + 5 (the 5 pays for the one '
+          'PINGREQ that may be queued) - every iteration either leaves the loop or strictly lowers that measure, a step reporting '
+          '"nothing done" cannot be selected (C16_drive_loop_terminates, C16_flush_outbound_terminates, C16_op_drive_terminates, '
+          'with a computed example on a resumed connection). Quiescence itself is checked: every generated '
           'history (faults, cancellations, reconnects, small arenas, Receive Maximum pressure), followed by the benign continuation - '
           'transport healed, broker answering every packet including the CONNECT (session present iff no clean start), reconnect, 40 '
           'polls - must end live with no owed acknowledgement, no pending PUBREL, a publish-quiescent session and no pending handle; a '
           'poll that returns without a message must have made wire progress; an operation performing 50000 I/O calls (model: fuel) is '
           'reported as spinning.',
-    note='Partial: termination of the engine between enqueues is a theorem (strictly decreasing measure); that the broker\'s answers then arrive and complete every handle within a bounded number of polls is a check over generated histories. '
+    note='Partial: termination of the engine loops is a theorem (strictly decreasing measure, no assumption on the transport); that the broker\'s answers then arrive and complete every handle within a bounded number of polls is a check over generated histories. '
          'Trusted: Coq kernel, model, extraction, harness with its healing action and automatic broker. No axioms. '
          'Known finding K12 (arena too full to reconnect) blocks the drain and is reported as KNOWN-FINDING.')
 
